@@ -142,6 +142,102 @@ func init() {
 				})
 			}
 		}
+		// ---- executeAll: every return statement, the phase it follows, and how the context check relates to it ----
+		ip := parseFile("interp/interp.go")
+		ea := findFunc(ip, "interp", "executeAll")
+		var rets [][2]string
+		phase := 0
+		isCtxGuard := func(st ast.Stmt) bool { // if p.checkCtx { ctxErr := p.checkContextNow(); if ctxErr != nil { return 0, ctxErr } }
+			ifs, ok := st.(*ast.IfStmt)
+			if !ok || c15Norm(src(ifs.Cond)) != "p.checkCtx" || ifs.Else != nil || len(ifs.Body.List) != 2 {
+				return false
+			}
+			as, ok := ifs.Body.List[0].(*ast.AssignStmt)
+			if !ok || c15Norm(src(as)) != "ctxErr := p.checkContextNow()" {
+				return false
+			}
+			inner, ok := ifs.Body.List[1].(*ast.IfStmt)
+			return ok && c15Norm(src(inner.Cond)) == "ctxErr != nil" && len(inner.Body.List) == 1 && c15Norm(src(inner.Body.List[0])) == "return 0, ctxErr"
+		}
+		var walkBlock func(list []ast.Stmt, inGuard bool)
+		walkBlock = func(list []ast.Stmt, inGuard bool) {
+			for i, st := range list {
+				ast.Inspect(st, func(n ast.Node) bool { // phase = number of p.execute / p.execActions calls started so far
+					if _, isBlock := n.(*ast.BlockStmt); isBlock {
+						return false
+					}
+					if call, ok := n.(*ast.CallExpr); ok {
+						if f := c15Norm(src(call.Fun)); f == "p.execute" || f == "p.execActions" {
+							phase++
+						}
+					}
+					return true
+				})
+				switch x := st.(type) {
+				case *ast.ReturnStmt:
+					how := "unguarded"
+					errRes := ""
+					if len(x.Results) == 2 {
+						errRes = c15Norm(src(x.Results[1]))
+					}
+					switch {
+					case errRes == "nil":
+						how = "no-error"
+					case inGuard && errRes == "ctxErr":
+						how = "context-error"
+					case i > 0 && isCtxGuard(list[i-1]):
+						how = "after-context-check"
+					}
+					rets = append(rets, [2]string{"phase " + itoa(phase) + ": " + c15Norm(src(x)), how})
+				case *ast.IfStmt:
+					g := isCtxGuard(x)
+					walkBlock(x.Body.List, inGuard || g)
+					if g {
+						// the inner `if ctxErr != nil` block
+						if inner, ok := x.Body.List[1].(*ast.IfStmt); ok {
+							_ = inner
+						}
+					}
+					if x.Else != nil {
+						if blk, ok := x.Else.(*ast.BlockStmt); ok {
+							walkBlock(blk.List, inGuard)
+						}
+					}
+				case *ast.BlockStmt:
+					walkBlock(x.List, inGuard)
+				}
+			}
+		}
+		walkBlock(ea.Body.List, false)
+		s += "/-- every `return` of executeAll: (phase it follows and statement, how it relates to the context check: `no-error` |\n"
+		s += "`context-error` (returns the context's error inside the check) | `after-context-check` (an error return immediately\n"
+		s += "preceded by `if p.checkCtx { ctxErr := p.checkContextNow(); if ctxErr != nil { return 0, ctxErr } }`) | `unguarded`) -/\n"
+		s += c15Pairs("executeAllReturns", rets)
+
+		// ---- the entry code must not read the stored context state ----
+		var entryReads [][2]string
+		for _, fn := range []string{"Execute", "ExecuteContext"} {
+			fd := findFunc(ne, "Interpreter", fn)
+			lhs := map[ast.Expr]bool{}
+			ast.Inspect(fd.Body, func(n ast.Node) bool {
+				if as, ok := n.(*ast.AssignStmt); ok {
+					for _, l := range as.Lhs {
+						lhs[l] = true
+					}
+				}
+				return true
+			})
+			ast.Inspect(fd.Body, func(n ast.Node) bool {
+				sel, ok := n.(*ast.SelectorExpr)
+				if ok && !lhs[sel] && src(sel.X) == "p.interp" && (sel.Sel.Name == "ctx" || sel.Sel.Name == "ctxDone" || sel.Sel.Name == "ctxOps" || sel.Sel.Name == "checkCtx") {
+					entryReads = append(entryReads, [2]string{fn, sel.Sel.Name})
+				}
+				return true
+			})
+		}
+		s += "/-- reads of the stored context fields by the entry code (Execute, ExecuteContext): must be none -/\n"
+		s += c15Pairs("entryReadsOfContextState", entryReads)
+
 		s += "/-- every write to ctxOps / checkCtx / ctx / ctxDone in package interp: (function, statement); a statement inside an if / for / switch / select / function literal is prefixed with `conditional: ` -/\n"
 		s += c15Pairs("ctxFieldWrites", writes)
 		s += "/-- every call of checkContext / checkContextNow in package interp: (calling function, callee) -/\n"
